@@ -28,3 +28,16 @@ LEVELS['C20'] = {'category': 'other', 'text': 'Feature wiring is proved: on the 
       '`decide`), and with fastmath off the helpers are the libm parameter (nofast_is_libm). "Every property holds under each build" is established by running the correspondence (model with matching fastmath/fma flags) and the '
       'property oracles against four real builds of the harness (default, +fma, --no-default-features, overflow/debug-checked); the 5e-5 accuracy clause without fastmath is checked by the oracle, not proved (libm is a model parameter).',
       'note': NOTE, 'technique': 'Lean 4 `decide` on translated Cargo manifests + correspondence/oracles under four builds'}
+
+proof('C11', 'Kernel-checked loop invariants for ALL widths, heights, strides, paddings and subsamplings (induction over the two nested loops, Proofs/Decode.lean, Encode.lean, EncodeTop.lean): '
+      'decode returns w*h pixels in row-major place, pixel (x,y) a function of Y(x,y) and the chroma sample at (x>>ss_x, y>>ss_y) only (decode_pointwise), hence independent of stride/padding/padding contents '
+      '(decode_layout_independent); encode produces planes of size (w, h) and (w>>ss_x, h>>ss_y), the luma plane is the pointwise image of the input and every chroma sample is the chroma of an input pixel inside its own block, '
+      'including the last_uv_pos skip logic (encode_spec); float conversions are maps of their pixel function and equal the 1x1 conversion (float_maps_pointwise, mapPxL_pointwise). Determinism/source immutability are '
+      'properties of pure functions in the model and are checked on the code by the correspondence and the C11 oracle.',
+      'Lean 4 loop-invariant proofs by induction (no bound on sizes) on a model validated by differential correspondence')
+LEVELS['C07'] = {'category': 'proof', 'text': 'Kernel-checked, for all geometries: Yuv::new establishes InvYuv (chroma planes of the subsampled size, luma dims divisible, every buffer covers its geometry); under InvYuv the decode loop '
+      'returns ok - no unchecked read outside a buffer (decode_safe, yuvToRgb_safe); the encode loop never writes out of bounds: sizes the subsampling does not divide panic before the loop, all others succeed and re-establish InvYuv '
+      '(encode_safe); frames whose chroma planes cannot cover the luma plane, or whose config exceeds their buffer, are rejected (undersized_chroma_rejected, uncovered_plane_rejected). Since Yuv values only arise from Yuv::new and the conversions, '
+      'this covers every call sequence. The float->int part (exp2 never feeds NaN/inf/out-of-range to to_int_unchecked, for every bit pattern) is stated in Props/C18.lean; until that theorem is complete it is covered by the outcome-class '
+      'correspondence with the hook assertion on special floats (listed under partial in the evidence).',
+      'note': NOTE, 'technique': 'Lean 4 invariant proofs (constructor establishes, loops preserve) + outcome-class correspondence with hook assertions'}
